@@ -1287,7 +1287,7 @@ def gen_lag(rng, rw, kinds, mids):
                     "ops": [{"op": "ho", "nq": n if kind == "hoq" else small, "nr": n if kind == "hor" else small,
                              "mid": next(mids), "rmid": next(mids)}]}
         conn["lag"] = {"side": "server" if kind in ("put", "hoq") else "client", "kind": kind}
-        conn["timeout"] = CALL_TIMEOUT + 0.5 * holds       # every hold costs two idle SYMM turns of real time
+        conn["timeout"] = CALL_TIMEOUT + 1.0 * holds       # every hold costs two idle SYMM turns of real time (more under load)
         script.append([conn])
     return cfg, script
 
